@@ -431,6 +431,10 @@ public:
             nev_adj = nev_adjusted(nconv);
             restart(nev_adj, selection);
         }
+        // If maxit is exhausted, the last action was a restart that replaced the Ritz pairs,
+        // so the convergence flags must be re-evaluated on the pairs that are returned
+        if (i >= maxit)
+            nconv = num_converged(tol);
         // Sorting results
         sort_ritzpair(sorting);
 
